@@ -4,11 +4,17 @@ def H(name, bound, tier="quick", timeout=1800, mem_gb=12):
 KANI = [{
     "mode": "external", "functions": ["gix_bitmap::ewah::decode", "gix_bitmap::ewah::Vec::for_each_set_bit", "gix_bitmap::ewah::Vec::num_bits"],
     "harnesses": [
-        H("ewah_any_11", "every 11-byte input (truncated header)"),
-        H("ewah_any_12", "every 12-byte input (no words)"),
-        H("ewah_any_20", "every 20-byte input (1 word); walk stops after 3 set bits"),
-        H("ewah_any_28", "every 28-byte input (2 words)"),
-        H("ewah_any_36", "every 36-byte input (3 words)", tier="thorough", timeout=3600, mem_gb=16),
+        H("ewah_decode_any_7", "decode() on every 7-byte input"),
+        H("ewah_decode_any_11", "decode() on every 11-byte input"),
+        H("ewah_decode_any_12", "decode() on every 12-byte input"),
+        H("ewah_decode_any_20", "decode() on every 20-byte input"),
+        H("ewah_decode_any_28", "decode() on every 28-byte input", tier="thorough"),
+        H("ewah_words_0", "every bitmap with 0 words: decode + walk"),
+        H("ewah_words_1", "every bitmap with exactly 1 word (any content): decode + walk"),
+        H("ewah_words_2", "every bitmap with exactly 2 words: decode + walk", tier="off", timeout=2400),
+        H("ewah_words_3", "every bitmap with exactly 3 words: decode + walk", tier="off", timeout=5400, mem_gb=16),
     ],
 }]
-ASSUMPTIONS = []
+ASSUMPTIONS = [
+    ("C06", "EWAH: the word count of the header is fixed per harness (0..2 quick, 3 thorough); the walk callback stops at the first set bit"),
+]
